@@ -104,34 +104,14 @@ fn normalise(v: &mut Value) {
 
 /// Own cross-run normaliser: `sdk::report_cross_run` scans the report text byte-wise (`txt[i..]` with
 /// `i += 1`) and panics on the first non-ASCII character, which generated titles/payloads contain.
-/// Same contract: manifest URNs renamed `M<n>` in order of first appearance (document order of the JSON
-/// text), volatile members blanked.
+/// Here: the active manifest label (the only URN that is new per signing run) is renamed `M0`, volatile
+/// members are blanked.
 fn cross_run(r: &Reader) -> Value {
     let txt = r.json();
     let mut v: Value = serde_json::from_str(&txt).unwrap_or(Value::Null);
-    let mut urns: Vec<String> = vec![];
-    for prefix in ["urn:c2pa:", "urn:uuid:"] {
-        let mut from = 0;
-        while let Some(p) = txt[from..].find(prefix) {
-            let s = from + p;
-            let e = txt[s..]
-                .find(|c: char| c == '"' || c == '/' || c == '\\' || c == ' ')
-                .map(|e| s + e)
-                .unwrap_or(txt.len());
-            urns.push(format!("{s:012}|{}", &txt[s..e]));
-            from = e.max(s + prefix.len());
-        }
-    }
-    urns.sort();
-    let mut order: Vec<String> = vec![];
-    for u in urns {
-        let u = u.split_once('|').map(|x| x.1.to_string()).unwrap_or_default();
-        if !order.contains(&u) {
-            order.push(u);
-        }
-    }
-    let mut ranked: Vec<(usize, String)> = order.into_iter().enumerate().collect();
-    ranked.sort_by_key(|(_, u)| std::cmp::Reverse(u.len()));
+    // Only the label of the active manifest is new in each signing run; ingredient manifests are embedded
+    // unchanged and must keep their labels, so they are compared verbatim.
+    let ranked: Vec<(usize, String)> = r.active_label().map(|l| vec![(0usize, l.to_string())]).unwrap_or_default();
     fn rename(s: &str, ranked: &[(usize, String)]) -> String {
         let mut out = s.to_string();
         for (i, u) in ranked {
